@@ -71,6 +71,13 @@ fn classify(values: &[V], obs: &mut Obs) {
     obs.nontrivial_if(container || ecma_odd || bool_gt1);
 }
 
+/// A case judged right after a call on the same thread that the library refused half way.
+#[derive(Clone, Debug, Serialize, Deserialize)]
+pub struct AfterRefusal {
+    pub kind: u8,
+    pub case: Case,
+}
+
 /// Values nested deeper than this are outside what the library promises to handle (documented on
 /// `Amf0DeserializationError::MaxNestingDepthExceeded`): a top-level value is at 0.
 const LIB_NESTING_LIMIT: usize = 128;
@@ -281,6 +288,8 @@ pub fn spec() -> PropSpec {
         checks: vec![
             PropCheck::new("encoder", |_| gen::amf_values(AmfCfg::LIB_DEEP, 6).prop_map(|values| Case { values }).boxed(), 100_000, 3_000_000, eval_encoder),
             PropCheck::new("decoder", |_| gen::amf_values(AmfCfg::WIRE_DEEP, 6).prop_map(|values| Case { values }).boxed(), 100_000, 3_000_000, eval_decoder),
+            PropCheck::new("encoder-after-a-refused-call", |_| (1u8..6, gen::amf_values(AmfCfg::LIB, 4)).prop_map(|(kind, values)| AfterRefusal { kind, case: Case { values } }).boxed(), 10_000, 300_000, |c: &AfterRefusal| { ra::disturb(c.kind); eval_encoder(&c.case) }),
+            PropCheck::new("decoder-after-a-refused-call", |_| (1u8..6, gen::amf_values(AmfCfg::WIRE, 4)).prop_map(|(kind, values)| AfterRefusal { kind, case: Case { values } }).boxed(), 10_000, 300_000, |c: &AfterRefusal| { ra::disturb(c.kind); eval_decoder(&c.case) }),
             EnumCheck::new("markers", true, |_| {
                 let mut v = Vec::new();
                 for marker in 0..=255u8 {
